@@ -58,6 +58,11 @@ S["trm"] = [("RunString", "SOLUTION 0\n pH 7\n Ca 1\n Cl 2\nSOLUTION 1-3\n pH 7\
              "TRANSPORT\n -cells 3\n -shifts 2\n -flow_direction diffusion_only\n -boundary_conditions constant closed\n -time_step 1000\n"
              " -multi_d true 1e-9 0.3 0.05 1.0\n -implicit true 1 -30\n -porosities 0.3 0.25 0.2\nEND\n")]
 
+S["tre"] = [("RunString", "SOLUTION 0\n pH 7\n Ca 1\n Cl 2\nSOLUTION 1-4\n pH 7\n Na 1\n Cl 1\nEXCHANGE 1-3\n X 0.001\n -equilibrate 1\n"
+             "TRANSPORT\n -cells 3\n -shifts 2\n -flow_direction diffusion_only\n -boundary_conditions constant constant\n -time_step 500\n"
+             " -multi_d true 2e-9 0.4 0.02 1.5\n -interlayer_d true 0.1 0.01 100\n -fix_current 1e-6\n -same_model 1-3\n"
+             " -dump hist_transport.dmp\n -dump_frequency 1\n -dump_restart 1\n -temp_retardation_factor 2.5\n -output_frequency 3\n -selected_output_frequency 3\nEND\n")]
+
 S["inv"] = [("RunString", "SOLUTION 1\n pH 7\n Na 1\n Cl 1\nSOLUTION 2\n pH 7\n Na 2\n Cl 2\n"
              "INVERSE_MODELING 1\n -solutions 1 2\n -uncertainty 0.05\n -phases\n  Halite\n -range\n -tolerance 1e-9\n -mineral_water false\nEND\n")]
 
@@ -90,12 +95,17 @@ S["redef"] = [("RunString", "SOLUTION_MASTER_SPECIES\n Xx Xx+ 0 Xx 50\nSOLUTION_
                "PHASES\n Xxite\n XxCl = Xx+ + Cl-\n log_k -1\n Calcite\n CaCO3 = CO3-2 + Ca+2\n log_k -7.0\n"
                "SOLUTION 1\n pH 7\n Na 1\n Cl 1\n Ca 0.5\n C 1\n Xx 1\nEND\n")]
 
+S["redef2"] = [("RunString", "EXCHANGE_MASTER_SPECIES\n Y Y-\nEXCHANGE_SPECIES\n Y- = Y-\n log_k 0\n Na+ + Y- = NaY\n log_k 0.5\n"
+                "SURFACE_MASTER_SPECIES\n Sfx SfxOH\nSURFACE_SPECIES\n SfxOH = SfxOH\n log_k 0\n SfxOH + Ca+2 = SfxOCa+ + H+\n log_k -2\n"
+                "SOLUTION_SPECIES\n Na+ = Na+\n -gamma 4.0 0.075\n -dw 2.0e-9\n -Vm 1 1 1 1\n H2O = OH- + H+\n log_k -13.5\n"
+                + SOL1 + "EXCHANGE 1\n Y 0.01\n -equilibrate 1\nSURFACE 1\n Sfx 0.001 100 1\n -equilibrate 1\nEND\n")]
+
 S["incr"] = [("RunString", "INCREMENTAL_REACTIONS true\nSOLUTION 1\n pH 7\n Na 1\n Cl 1\nREACTION 1\n NaCl 1\n 1 2 mmol\nEND\n")]
 
 S["save"] = [("RunString", "SOLUTION 1\n pH 7\n Na 1\n Cl 1\n Ca 0.5\n C 1\nEQUILIBRIUM_PHASES 1\n Calcite 0 1\n CO2(g) -2 1\n"
               "GAS_PHASE 1\n -fixed_pressure\n -pressure 1\n -volume 1\n CO2(g) 0.01\nREACTION 1\n NaCl 1\n 1 mmol\n"
               "SAVE solution 2\nSAVE equilibrium_phases 2\nSAVE gas_phase 2\nEND\n"
-              "MIX 3\n 1 0.5\n 2 0.5\nSAVE solution 3-4\nEND\nCOPY solution 3 9\nEND\n")]
+              "MIX 3\n 1 0.5\n 2 0.5\nSAVE solution 3-4\nEND\nCOPY solution 3 9\nEND\nRUN_CELLS\n -cells 1\n -time_step 10\n -start_time 5\nEND\n")]
 
 S["exsurf"] = [("RunString", "SOLUTION 1\n pH 7\n Na 1\n Cl 1\n Ca 0.5\n C 1\nEXCHANGE 1\n X 0.01\n -equilibrate 1\n"
                 "SURFACE 1\n Hfo_w 0.001 600 1\n Hfo_s 0.00005\n -equilibrate 1\nSAVE exchange 2\nSAVE surface 2\nEND\n"
@@ -115,7 +125,7 @@ S["brine"] = [("RunString", "SOLUTION 1\n temp 40\n pH 7 charge\n Na 3000\n Cl 3
 
 S["title"] = [("RunString", "TITLE residue of an earlier run\n" + SOL1 + "END\n")]
 
-S["dumpf"] = [("SetDumpFileOn", 1), ("RunString", SOL1 + "DUMP\n -file hist_dump.txt\n -all\nEND\n")]
+S["dumpf"] = [("SetDumpFileOn", 1), ("RunString", SOL1 + "DUMP\n -file hist_dump.txt\n -append true\n -solution 1\nEND\n")]
 
 S["userprint"] = [("RunString", "USER_PRINT\n 10 PRINT \"history user print\", TOT(\"Na\")\nUSER_PUNCH 1\n -headings hp\n 10 PUNCH 77\n" + SOL1 + "END\n")]
 
@@ -206,6 +216,9 @@ P["react"] = [("RunString", HP + " -totals Na Cl\n -reaction true\n" "SOLUTION 1
 # transport / advection with every parameter left at its default
 P["trans"] = [("RunString", HP + " -totals Na Ca Cl\n -distance true\n -time true\n -step true\nSOLUTION 0\n pH 7\n Ca 1\n Cl 2\nSOLUTION 1-3\n pH 7\n Na 1\n Cl 1\n"
                         "TRANSPORT\n -cells 3\n -shifts 2\nEND\n")]
+# stagnant-numbered solutions are defined but no -stagnant option is given: they must stay untouched
+P["trans7"] = [("RunString", HP + " -totals Na Ca Cl\n -distance true\n -time true\n -step true\nSOLUTION 0\n pH 7\n Ca 1\n Cl 2\nSOLUTION 1-4\n pH 7\n Na 1\n Cl 1\n"
+                "SOLUTION 5-7\n pH 7\n K 5\n Cl 5\nTRANSPORT\n -cells 3\n -shifts 2\n -time_step 1000\n -punch_cells 1-7\nEND\n")]
 P["adv"] = [("RunString", HP + " -totals Na Ca Cl\n -distance true\n -time true\n -step true\nSOLUTION 0\n pH 7\n Ca 1\n Cl 2\nSOLUTION 1-3\n pH 7\n Na 1\n Cl 1\n"
                       "ADVECTION\n -cells 3\n -shifts 2\nEND\n")]
 # kinetics with default integration parameters, database rate if there is one
@@ -215,6 +228,7 @@ P["kin"] = [("RunString", "RATES\n lin\n -start\n 10 SAVE 1e-6 * TIME * (1 + M)\
 P["dump"] = [("RunString", SOL1 + "EQUILIBRIUM_PHASES 1\n Calcite 0 1\nSAVE solution 2\nDUMP\n -all\nEND\n")]
 # redefined species / phases / elements must be back at the database values
 P["elem"] = [("RunString", HP + " -totals Xx Ca\n -saturation_indices Xxite Calcite\nSOLUTION 1\n pH 7\n Na 1\n Cl 1\n Ca 0.5\n C 1\n Xx 1\nEND\n")]
+P["elem2"] = [("RunString", HP + " -totals Na Y Sfx\n -molalities NaY SfxOCa+ OH-\nUSER_PUNCH\n -headings dwNa\n 10 PUNCH DIFF_C(\"Na+\")\n" + SOL1 + "EXCHANGE 1\n Y 0.01\n -equilibrate 1\nSURFACE 1\n Sfx 0.001 100 1\n -equilibrate 1\nEND\n")]
 P["eqxx"] = [("RunString", SOL1 + "EQUILIBRIUM_PHASES 1\n Xxite 0 1\nEND\n")]
 # exchange + surface, default surface options
 P["exsurf"] = [("RunString", HP + " -totals Na Ca\n -molalities NaX CaX2 Hfo_wOH\n" + SOL1 + "EXCHANGE 1\n X 0.01\n -equilibrate 1\nSURFACE 1\n Hfo_w 0.001 600 1\n -equilibrate 1\nEND\n")]
@@ -230,8 +244,8 @@ P["acc"] = [("AccumulateLine", "SOLUTION 1"), ("AccumulateLine", " pH 7"), ("Acc
 # KNOBS-free log capture is part of every ALL_ON probe; one probe asks for the log explicitly (the fresh instance must agree)
 P["log"] = [("RunString", "KNOBS\n -logfile true\n" + SOL1 + "EQUILIBRIUM_PHASES 1\n Calcite 0 1\nEND\n")]
 
-PROBE_ORDER = ["none", "bare", "spec", "iter", "basic", "calc", "rate", "rate2", "noso", "so", "use", "use1", "react", "trans", "adv", "kin",
-               "dump", "elem", "eqxx", "exsurf", "brine", "inv", "err", "acc", "log"]
+PROBE_ORDER = ["none", "bare", "spec", "iter", "basic", "calc", "rate", "rate2", "noso", "so", "use", "use1", "react", "trans", "trans7", "adv", "kin",
+               "dump", "elem", "elem2", "eqxx", "exsurf", "brine", "inv", "err", "acc", "log"]
 assert sorted(PROBE_ORDER) == sorted(P)
 
 # ops that must not run under the sanitizer build (UBSan reports a benign one-before-the-array pointer in integrate.cpp for
